@@ -469,7 +469,7 @@ def run_check(spec, argv):
 
     # evidence
     nontrivial = spec.get("nontrivial", lambda ln: True)
-    distinct = len({ln for ln in lines if nontrivial(ln)})
+    distinct = len({ln.split("|")[0].strip() for ln in lines if nontrivial(ln)})   # distinct CASES, not case+output
     kinds = {}
     for ln in lines:
         kinds[case_kind(ln)] = kinds.get(case_kind(ln), 0) + 1
